@@ -509,4 +509,263 @@ example :
       (fun r => r.1.map fun p => (p.QueryLogEnabled, p.IPLogEnabled, p.Deleted, p.ID)) = some (some (true, false, false, "prof1")) := by
   decide
 
+
+/-! ## `ipFromHTTPSRR` and `ipFromAnswer` (round 3c)
+
+`dns.RR` values are symbolic (`Option String`: the dynamic type), so the answer section is the list of its
+records' types and the type switch compares them; `[]dns.SVCBKeyValue` is a list of tokens handed to the function
+parameter `f_ipFromHTTPSRRKV`; `netutil.IPToAddr` is the function parameter `f_IPToAddr` of the `net.IP` and the
+family.  Both definitions are total (no `Option`): the translated code has no panic site. -/
+
+/-- What both functions do with the `net.IP` and family they settled on: nil → zero address, no error;
+otherwise `netutil.IPToAddr`, whose error is wrapped and whose address is returned (address, error?). -/
+def convOut (conv : List Int → Int → String × Option String) (fam : Int) (netIP : List Int) : String × Bool :=
+  if netIP.isEmpty then ("", false)
+  else if (conv netIP fam).2.isSome then ("", true) else ((conv netIP fam).1, false)
+
+/-- What a caller observes of a result: the address and whether there is an error (the error *text* is
+the source text of the `fmt.Errorf` call and would follow a renaming of a local). -/
+def obs (r : String × Option String) : String × Bool := (r.1, r.2.isSome)
+
+/-- The state in which the scan of `ipFromHTTPSRR` stops. -/
+def scanSt (f : String → Int × List Int) : List String → Int × List Int → Int × List Int
+  | [], st => st
+  | v :: vs, _ => if (f v).1 = 0 then scanSt f vs (f v) else f v
+
+theorem httpsScan (f : String → Int × List Int)
+    (body : Int × List Int → Int → String → Step (Int × List Int) (String × Option String))
+    (hbody : ∀ st i v, body st i v = if (f v).1 = 0 then .next (f v) else .brk (f v)) :
+    ∀ (vs : List String) (i : Int) (st : Int × List Int), goRangeFrom i vs st body = .inl (scanSt f vs st)
+  | [], _, _ => rfl
+  | v :: vs, i, st => by
+    rw [goRangeFrom, hbody, scanSt]
+    by_cases h0 : (f v).1 = 0
+    · simp only [h0, if_true]; exact httpsScan f body hbody vs (i + 1) (f v)
+    · simp only [h0, if_false]
+
+theorem scanSt_find (f : String → Int × List Int) (hf : ∀ v, (f v).1 = 0 → (f v).2 = []) :
+    ∀ (vs : List String) (st : Int × List Int), st.2 = [] →
+      match vs.find? (fun v => (f v).1 != 0) with
+      | none => (scanSt f vs st).2 = []
+      | some v => scanSt f vs st = f v
+  | [], st, h => h
+  | v :: vs, st, h => by
+    rw [scanSt, List.find?_cons]
+    by_cases h0 : (f v).1 = 0
+    · simp only [h0, if_true, bne_self_eq_false]
+      exact scanSt_find f hf vs (f v) (hf v h0)
+    · have : ((f v).1 != 0) = true := by simpa using h0
+      simp only [h0, if_false, this]
+
+/-- `ipFromHTTPSRR` in terms of the state its scan stops in (no assumption on `f`). -/
+theorem ipFromHTTPSRR_first_scan (vs : List String) (f : String → Int × List Int) (conv : List Int → Int → String × Option String) :
+    obs (ipFromHTTPSRR vs f conv) = convOut conv (scanSt f vs (0, [])).1 (scanSt f vs (0, [])).2 := by
+  unfold ipFromHTTPSRR goRange
+  simp only []
+  rw [httpsScan f _ ?_ vs 0 (0, [])]
+  · generalize scanSt f vs (0, []) = st
+    by_cases he : st.2 = [] <;> by_cases hc : (conv st.2 st.1).2.isSome = true <;> simp [he, hc, convOut, obs]
+  · intro st i v
+    by_cases h0 : (f v).1 = 0 <;> simp [h0]
+    exact Prod.ext h0.symm rfl
+
+/-- **`ipFromHTTPSRR`: the first parameter for which `ipFromHTTPSRRKV` reports a family decides**, for
+every list of parameters and every `ipFromHTTPSRRKV` / `IPToAddr` behaviour (`hf`: no family ⇒ nil IP,
+which `ipFromHTTPSRRKV_spec` gives for the translated `ipFromHTTPSRRKV`). -/
+theorem ipFromHTTPSRR_first (vs : List String) (f : String → Int × List Int) (conv : List Int → Int → String × Option String)
+    (hf : ∀ v, (f v).1 = 0 → (f v).2 = []) :
+    obs (ipFromHTTPSRR vs f conv) =
+      match vs.find? (fun v => (f v).1 != 0) with
+      | none => ("", false)
+      | some v => convOut conv (f v).1 (f v).2 := by
+  rw [ipFromHTTPSRR_first_scan]
+  have h2 := scanSt_find f hf vs (0, []) rfl
+  cases hfind : vs.find? (fun v => (f v).1 != 0) with
+  | none => rw [hfind] at h2; simp [h2, convOut]
+  | some v => rw [hfind] at h2; rw [h2]
+
+/-- Where the scan of `ipFromAnswer` stops: at the first A, AAAA or HTTPS record. -/
+def ansScan (rrtype : Int) (eA eAAAA : List Int) (h : String × Option String) :
+    List (Option String) → Int × Int × List Int → (Int × Int × List Int) ⊕ (String × Option String)
+  | [], st => .inl st
+  | t :: ts, st =>
+    if t = some "*dns.A" then .inl (1, rrtype, eA)
+    else if t = some "*dns.AAAA" then .inl (2, rrtype, eAAAA)
+    else if t = some "*dns.HTTPS" then .inr h
+    else ansScan rrtype eA eAAAA h ts st
+
+theorem answerScan (rrtype : Int) (eA eAAAA : List Int) (h : String × Option String)
+    (body : Int × Int × List Int → Int → Option String → Step (Int × Int × List Int) (String × Option String))
+    (hbody : ∀ st i t, body st i t =
+      if t = some "*dns.A" then .brk (1, rrtype, eA) else if t = some "*dns.AAAA" then .brk (2, rrtype, eAAAA)
+      else if t = some "*dns.HTTPS" then .ret h else .next st) :
+    ∀ (ts : List (Option String)) (i : Int) (st : Int × Int × List Int),
+      goRangeFrom i ts st body = ansScan rrtype eA eAAAA h ts st
+  | [], _, _ => rfl
+  | t :: ts, i, st => by
+    rw [goRangeFrom, hbody, ansScan]
+    by_cases h1 : t = some "*dns.A"
+    · rw [if_pos h1, if_pos h1]
+    by_cases h2 : t = some "*dns.AAAA"
+    · rw [if_neg h1, if_neg h1, if_pos h2, if_pos h2]
+    by_cases h3 : t = some "*dns.HTTPS"
+    · rw [if_neg h1, if_neg h1, if_neg h2, if_neg h2, if_pos h3, if_pos h3]
+    · rw [if_neg h1, if_neg h1, if_neg h2, if_neg h2, if_neg h3, if_neg h3]
+      exact answerScan rrtype eA eAAAA h body hbody ts (i + 1) st
+
+/-- The record types `ipFromAnswer` stops at. -/
+def decides (t : Option String) : Bool := t == some "*dns.A" || t == some "*dns.AAAA" || t == some "*dns.HTTPS"
+
+/-- **`ipFromAnswer`: records of other types are skipped and the first A, AAAA or HTTPS record decides**, for
+every answer section (as the list of the records' dynamic types) and every value of the opaque reads:
+an A record gives family 4 and its `A` field to `IPToAddr`, an AAAA record family 6 and its `AAAA` field,
+an HTTPS record the result of `ipFromHTTPSRR` unchanged; no such record: the zero address, no error.
+(`loop_opaque`: each of `rrtype`, `eA`, `eAAAA`, `h` is read in at most one iteration — the one the loop
+leaves from — so one parameter per read loses nothing here.) -/
+theorem ipFromAnswer_first (ans : List (Option String)) (rrtype : Int) (eA eAAAA : List Int) (h : String × Option String)
+    (conv : List Int → Int → String × Option String) :
+    obs (ipFromAnswer ans rrtype eA eAAAA h conv) =
+      match ans.find? decides with
+      | none => ("", false)
+      | some t =>
+        if t = some "*dns.A" then convOut conv 1 eA
+        else if t = some "*dns.AAAA" then convOut conv 2 eAAAA
+        else obs h := by
+  unfold ipFromAnswer goRange
+  simp only []
+  rw [answerScan rrtype eA eAAAA h _ ?_ ans 0 (0, 0, [])]
+  · induction ans with
+    | nil => simp [ansScan, obs]
+    | cons t ts ih =>
+      rw [ansScan, List.find?_cons]
+      by_cases h1 : t = some "*dns.A"
+      · by_cases he : eA = [] <;> by_cases hc : (conv eA 1).2.isSome = true <;> simp [he, hc, h1, decides, convOut, obs]
+      by_cases h2 : t = some "*dns.AAAA"
+      · by_cases he : eAAAA = [] <;> by_cases hc : (conv eAAAA 2).2.isSome = true <;> simp [he, hc, h2, decides, convOut, obs]
+      by_cases h3 : t = some "*dns.HTTPS"
+      · simp [h3, decides]
+      · have : decides t = false := by simp [decides, h1, h2, h3]
+        simp only [h1, h2, h3, if_false, this]
+        exact ih
+  · intro st i t
+    by_cases h1 : t = some "*dns.A"
+    · simp [h1]
+    by_cases h2 : t = some "*dns.AAAA"
+    · simp [h2]
+    by_cases h3 : t = some "*dns.HTTPS"
+    · simp [h3]
+    · simp [h1, h2, h3]
+
+/-! ### Against the hand model (`Agd.Record.ipFromKVs`, `Agd.Record.ipFromAnswer`)
+
+The model sees an address as `IPVal` (nil / unusable / unspecified / other) and the outcome as `IPKind`.
+`enc` is any encoding of `IPVal` as `net.IP` bytes that keeps nil apart, `conv` any `IPToAddr` and
+`isUnspec` any reading of the resulting address that agree with `ipOfVal` (`Faithful`). -/
+open Agd.Record
+
+def kindOf (isUnspec : String → Bool) (ip : String) : IPKind :=
+  if ip = "" then .none else if isUnspec ip then .unspec else .addr
+
+structure Faithful (enc : IPVal → List Int) (conv : List Int → Int → String × Option String) (isUnspec : String → Bool) : Prop where
+  nil_iff : ∀ v, enc v = [] ↔ v = .nil
+  conv_ok : ∀ v fam, v ≠ .nil → kindOf isUnspec (if (conv (enc v) fam).2.isSome then "" else (conv (enc v) fam).1) = ipOfVal v
+
+theorem convOut_kind {enc conv isUnspec} (hF : Faithful enc conv isUnspec) (fam : Int) (v : IPVal) :
+    kindOf isUnspec (convOut conv fam (enc v)).1 = ipOfVal v := by
+  unfold convOut
+  by_cases hv : v = .nil
+  · subst hv; simp [(hF.nil_iff .nil).2 rfl, kindOf, ipOfVal]
+  · have hne : enc v ≠ [] := fun h => hv ((hF.nil_iff v).1 h)
+    have := hF.conv_ok v fam hv
+    simp only [List.isEmpty_iff, hne, if_false]
+    split <;> simp_all
+
+/-- What `ipFromHTTPSRRKV` reports for a parameter of the model. -/
+def kvRes (enc : IPVal → List Int) : KV → Int × List Int
+  | .hint4 (h :: _) => (1, enc h)
+  | .hint6 (h :: _) => (2, enc h)
+  | _ => (0, [])
+
+theorem scanSt_model {enc conv isUnspec} (hF : Faithful enc conv isUnspec) (f : String → Int × List Int)
+    (g : String → KV) :
+    ∀ (ts : List String) (st : Int × List Int), (∀ t ∈ ts, f t = kvRes enc (g t)) → st.2 = [] →
+      kindOf isUnspec (convOut conv (scanSt f ts st).1 (scanSt f ts st).2).1 = ipFromKVs (ts.map g)
+  | [], st, _, h => by simp [scanSt, convOut, h, kindOf, ipFromKVs]
+  | t :: ts, st, hf, _ => by
+    have ih := scanSt_model hF f g ts (0, []) (fun t ht => hf t (by simp [ht])) rfl
+    rw [scanSt, hf t (by simp), List.map_cons]
+    match hg : g t with
+    | .hint4 (v :: _) => simpa [kvRes, ipFromKVs] using convOut_kind hF 1 v
+    | .hint6 (v :: _) => simpa [kvRes, ipFromKVs] using convOut_kind hF 2 v
+    | .hint4 [] => simpa [kvRes, ipFromKVs] using ih
+    | .hint6 [] => simpa [kvRes, ipFromKVs] using ih
+    | .other => simpa [kvRes, ipFromKVs] using ih
+
+/-- **The model's `ipFromKVs` is the translated `ipFromHTTPSRR`**: for every list of tokens `ts`, every
+reading `g` of the tokens as parameters of the model (so `ts.map g` is an arbitrary model list) and any `f` that
+answers for each token what `ipFromHTTPSRRKV` reports for that parameter. -/
+theorem ipFromHTTPSRR_tr {enc conv isUnspec} (hF : Faithful enc conv isUnspec) (f : String → Int × List Int)
+    (g : String → KV) (ts : List String) (h : ∀ t ∈ ts, f t = kvRes enc (g t)) :
+    kindOf isUnspec (obs (ipFromHTTPSRR ts f conv)).1 = ipFromKVs (ts.map g) := by
+  have h1 := ipFromHTTPSRR_first_scan ts f conv
+  have key := scanSt_model hF f g ts (0, []) h rfl
+  rw [h1, key]
+
+def tyName : RR → Option String
+  | .a _ => some "*dns.A" | .aaaa _ => some "*dns.AAAA" | .https _ => some "*dns.HTTPS" | .other => some "*dns.CNAME"
+/-- The value read by `v.A` / `v.AAAA` in the iteration that leaves the loop, the parameters of the HTTPS record
+`ipFromHTTPSRR` is called with. -/
+def firstA : List RR → IPVal
+  | [] => .nil | .a ip :: _ => ip | _ :: r => firstA r
+def firstAAAA : List RR → IPVal
+  | [] => .nil | .aaaa ip :: _ => ip | _ :: r => firstAAAA r
+def firstHTTPS : List RR → Option (List KV)
+  | [] => none | .https kvs :: _ => some kvs | _ :: r => firstHTTPS r
+
+/-- **The model's `ipFromAnswer` is the translated `ipFromAnswer`**, for every answer section of the model:
+`hh` says that the opaque result `h` of `ipFromHTTPSRR` is what `ipFromHTTPSRR_tr` gives for the first HTTPS
+record (if there is one). -/
+theorem ipFromAnswer_tr {enc conv isUnspec} (hF : Faithful enc conv isUnspec) (rrtype : Int) (h : String × Option String) :
+    ∀ (rs : List RR), (∀ kvs, firstHTTPS rs = some kvs → kindOf isUnspec h.1 = ipFromKVs kvs) →
+      kindOf isUnspec (obs (ipFromAnswer (rs.map tyName) rrtype (enc (firstA rs)) (enc (firstAAAA rs)) h conv)).1 =
+        Agd.Record.ipFromAnswer rs
+  | [], _ => by rw [ipFromAnswer_first]; simp [kindOf, Agd.Record.ipFromAnswer]
+  | .a ip :: r, _ => by
+    rw [ipFromAnswer_first]
+    simpa [tyName, decides, firstA, Agd.Record.ipFromAnswer] using convOut_kind hF 1 ip
+  | .aaaa ip :: r, _ => by
+    rw [ipFromAnswer_first]
+    simpa [tyName, decides, firstAAAA, Agd.Record.ipFromAnswer] using convOut_kind hF 2 ip
+  | .https kvs :: r, hh => by
+    rw [ipFromAnswer_first]
+    simpa [tyName, decides, Agd.Record.ipFromAnswer, obs] using hh kvs rfl
+  | .other :: r, hh => by
+    have ih := ipFromAnswer_tr hF rrtype h r (fun kvs hk => hh kvs (by simpa [firstHTTPS] using hk))
+    rw [ipFromAnswer_first] at ih ⊢
+    simpa [tyName, decides, firstA, firstAAAA, Agd.Record.ipFromAnswer] using ih
+
+/-- A faithful reading exists (so the equivalences are not vacuous), and a non-trivial instance. -/
+def encEx : IPVal → List Int | .nil => [] | .bad => [0] | .unspec => [0, 0, 0, 0] | .addr => [1, 2, 3, 4]
+def convEx (ip : List Int) (_ : Int) : String × Option String :=
+  if ip = [0, 0, 0, 0] then ("0.0.0.0", none) else if ip = [1, 2, 3, 4] then ("1.2.3.4", none) else ("", some "bad")
+theorem faithfulEx : Faithful encEx convEx (· = "0.0.0.0") := by
+  constructor
+  · intro v; cases v <;> simp [encEx]
+  · intro v fam hv; cases v <;> simp_all [encEx, convEx, kindOf, ipOfVal]
+example : ipFromAnswer [some "*dns.CNAME", some "*dns.AAAA", some "*dns.A"] 28 [9] [1, 2, 3, 4] ("x", none) convEx = ("1.2.3.4", none) := by
+  decide
+example : ipFromHTTPSRR ["alpn", "ipv4hint", "ipv6hint"] (fun t => if t = "ipv4hint" then (1, [1, 2, 3, 4]) else if t = "ipv6hint" then (2, [0, 0, 0, 0]) else (0, [])) convEx = ("1.2.3.4", none) := by
+  decide
+
 end Agd.Tie.TrC15
+#print axioms Agd.Tie.TrC15.httpsScan
+#print axioms Agd.Tie.TrC15.scanSt_find
+#print axioms Agd.Tie.TrC15.ipFromHTTPSRR_first_scan
+#print axioms Agd.Tie.TrC15.ipFromHTTPSRR_first
+#print axioms Agd.Tie.TrC15.answerScan
+#print axioms Agd.Tie.TrC15.ipFromAnswer_first
+#print axioms Agd.Tie.TrC15.convOut_kind
+#print axioms Agd.Tie.TrC15.scanSt_model
+#print axioms Agd.Tie.TrC15.ipFromHTTPSRR_tr
+#print axioms Agd.Tie.TrC15.ipFromAnswer_tr
+#print axioms Agd.Tie.TrC15.faithfulEx
